@@ -1,0 +1,185 @@
+//go:build verif
+
+package types
+
+import (
+	"math"
+
+	"github.com/lyraproj/pcore/px"
+)
+
+// Verification hook (build tag `verif` only, add-only): structural decoding of types and values
+// into plain data, with access to the unexported fields, so that the verification harness can
+// print them as terms of its formal model. Nothing here is compiled without the tag.
+
+// VerifTy is a plain-data image of a px.Type.
+type VerifTy struct {
+	K       string     `json:"k"`
+	Lo      int64      `json:"lo,omitempty"`
+	Hi      int64      `json:"hi,omitempty"`
+	Bool    int        `json:"bool,omitempty"`
+	S       string     `json:"s,omitempty"`
+	Strs    []string   `json:"strs,omitempty"`
+	CI      bool       `json:"ci,omitempty"`
+	Ts      []*VerifTy `json:"ts,omitempty"`
+	Names   []string   `json:"names,omitempty"`
+	Keys    []*VerifTy `json:"keys,omitempty"`
+	HasSize bool       `json:"has_size,omitempty"`
+	NaN     bool       `json:"nan,omitempty"`
+}
+
+// VerifVal is a plain-data image of a px.Value.
+type VerifVal struct {
+	K   string      `json:"k"`
+	I   int64       `json:"i,omitempty"`
+	NaN bool        `json:"nan,omitempty"`
+	B   bool        `json:"b,omitempty"`
+	S   string      `json:"s,omitempty"`
+	Vs  []*VerifVal `json:"vs,omitempty"`
+	T   *VerifTy    `json:"t,omitempty"`
+}
+
+// VerifFloatKey maps a float64 to an int64 that preserves Go's `<` and `==` on non-NaN floats
+// (+0 and -0 map to the same key).
+func VerifFloatKey(f float64) int64 {
+	b := math.Float64bits(f)
+	if b&(1<<63) != 0 {
+		return -int64(b &^ (1 << 63))
+	}
+	return int64(b)
+}
+
+func verifSize(t *VerifTy, sz *IntegerType) *VerifTy {
+	t.Lo, t.Hi = sz.min, sz.max
+	return t
+}
+
+func VerifDecodeType(t px.Type) *VerifTy {
+	switch t := t.(type) {
+	case nil:
+		return &VerifTy{K: `Nil`}
+	case *AnyType:
+		return &VerifTy{K: `Any`}
+	case *UnitType:
+		return &VerifTy{K: `Unit`}
+	case *UndefType:
+		return &VerifTy{K: `Undef`}
+	case *DefaultType:
+		return &VerifTy{K: `Default`}
+	case *BooleanType:
+		return &VerifTy{K: `Boolean`, Bool: t.value}
+	case *IntegerType:
+		return &VerifTy{K: `Integer`, Lo: t.min, Hi: t.max}
+	case *FloatType:
+		return &VerifTy{K: `Float`, Lo: VerifFloatKey(t.min), Hi: VerifFloatKey(t.max), NaN: t.min != t.min || t.max != t.max}
+	case *NumericType:
+		return &VerifTy{K: `Numeric`}
+	case *ScalarType:
+		return &VerifTy{K: `Scalar`}
+	case *ScalarDataType:
+		return &VerifTy{K: `ScalarData`}
+	case *stringType:
+		return &VerifTy{K: `String`}
+	case *scStringType:
+		return verifSize(&VerifTy{K: `StringSz`}, t.size)
+	case *vcStringType:
+		return &VerifTy{K: `StringVal`, S: t.value}
+	case *EnumType:
+		return &VerifTy{K: `Enum`, CI: t.caseInsensitive, Strs: append([]string{}, t.values...)}
+	case *PatternType:
+		r := &VerifTy{K: `Pattern`, Strs: []string{}}
+		for _, rx := range t.regexps {
+			r.Strs = append(r.Strs, rx.pattern.String())
+		}
+		return r
+	case *RegexpType:
+		return &VerifTy{K: `Regexp`, S: t.pattern.String()}
+	case *BinaryType:
+		return &VerifTy{K: `Binary`}
+	case *CollectionType:
+		return verifSize(&VerifTy{K: `Collection`}, t.size)
+	case *ArrayType:
+		return verifSize(&VerifTy{K: `Array`, Ts: []*VerifTy{VerifDecodeType(t.typ)}}, t.size)
+	case *HashType:
+		return verifSize(&VerifTy{K: `Hash`, Ts: []*VerifTy{VerifDecodeType(t.keyType), VerifDecodeType(t.valueType)}}, t.size)
+	case *TupleType:
+		r := &VerifTy{K: `Tuple`, Ts: []*VerifTy{}, HasSize: t.size != nil}
+		for _, e := range t.types {
+			r.Ts = append(r.Ts, VerifDecodeType(e))
+		}
+		return verifSize(r, t.givenOrActualSize)
+	case *StructType:
+		r := &VerifTy{K: `Struct`, Ts: []*VerifTy{}, Keys: []*VerifTy{}, Names: []string{}}
+		for _, e := range t.elements {
+			r.Names = append(r.Names, e.name)
+			r.Keys = append(r.Keys, VerifDecodeType(e.key))
+			r.Ts = append(r.Ts, VerifDecodeType(e.value))
+		}
+		return r
+	case *VariantType:
+		r := &VerifTy{K: `Variant`, Ts: []*VerifTy{}}
+		for _, e := range t.types {
+			r.Ts = append(r.Ts, VerifDecodeType(e))
+		}
+		return r
+	case *OptionalType:
+		return &VerifTy{K: `Optional`, Ts: []*VerifTy{VerifDecodeType(t.typ)}}
+	case *NotUndefType:
+		return &VerifTy{K: `NotUndef`, Ts: []*VerifTy{VerifDecodeType(t.typ)}}
+	case *TypeType:
+		return &VerifTy{K: `Type`, Ts: []*VerifTy{VerifDecodeType(t.typ)}}
+	case *SensitiveType:
+		return &VerifTy{K: `Sensitive`, Ts: []*VerifTy{VerifDecodeType(t.typ)}}
+	case *IterableType:
+		return &VerifTy{K: `Iterable`, Ts: []*VerifTy{VerifDecodeType(t.typ)}}
+	case *TypeAliasType:
+		return &VerifTy{K: `Alias`, S: t.name}
+	}
+	return &VerifTy{K: `Other`, S: t.Name()}
+}
+
+func VerifDecodeValue(v px.Value) *VerifVal {
+	switch v := v.(type) {
+	case nil:
+		return &VerifVal{K: `Nil`}
+	case *UndefValue:
+		return &VerifVal{K: `Undef`}
+	case *DefaultValue:
+		return &VerifVal{K: `Default`}
+	case booleanValue:
+		return &VerifVal{K: `Bool`, B: bool(v)}
+	case integerValue:
+		return &VerifVal{K: `Int`, I: int64(v)}
+	case floatValue:
+		f := float64(v)
+		return &VerifVal{K: `Float`, I: VerifFloatKey(f), NaN: f != f}
+	case stringValue:
+		return &VerifVal{K: `Str`, S: string(v)}
+	case *Regexp:
+		return &VerifVal{K: `Regexp`, S: v.pattern.String()}
+	case *Binary:
+		return &VerifVal{K: `Binary`, S: string(v.bytes)}
+	case *Array:
+		r := &VerifVal{K: `Arr`, Vs: []*VerifVal{}}
+		for _, e := range v.elements {
+			r.Vs = append(r.Vs, VerifDecodeValue(e))
+		}
+		return r
+	case *Hash:
+		r := &VerifVal{K: `Hash`, Vs: []*VerifVal{}}
+		for _, e := range v.entries {
+			r.Vs = append(r.Vs, VerifDecodeValue(e.key), VerifDecodeValue(e.value))
+		}
+		return r
+	case *HashEntry:
+		return &VerifVal{K: `Entry`, Vs: []*VerifVal{VerifDecodeValue(v.key), VerifDecodeValue(v.value)}}
+	case *Sensitive:
+		return &VerifVal{K: `Sensitive`, Vs: []*VerifVal{VerifDecodeValue(v.Value)}}
+	case px.Type:
+		return &VerifVal{K: `Type`, T: VerifDecodeType(v)}
+	}
+	return &VerifVal{K: `Other`, S: v.PType().Name()}
+}
+
+// VerifCommonType exposes the unexported commonType.
+func VerifCommonType(a, b px.Type) px.Type { return commonType(a, b) }
